@@ -70,6 +70,21 @@ func init() {
 		}
 		return v
 	})
+	reg(harnessPkg+".vpChoice", "", func(fr *frame, args []value) value {
+		ps := fr.i.ps
+		n := int(fr.conc(args[1]))
+		if n <= 0 {
+			panic(pathAbort{"empty choice"})
+		}
+		v := ps.fresh(goString(args[0]), "int", 64)
+		ps.assume(sym{mkCmp("bvult", v, mkConst(uint64(n), 64))})
+		for i := 0; i < n-1; i++ {
+			if ps.branch(mkEq(v, mkConst(uint64(i), 64))) {
+				return i
+			}
+		}
+		return n - 1
+	})
 	reg(harnessPkg+".vpSymbolic", "", func(fr *frame, args []value) value { return true })
 	reg(harnessPkg+".vpAssume", "", func(fr *frame, args []value) value {
 		fr.i.ps.assume(args[0])
